@@ -18,9 +18,10 @@ _CLOSE_SAFE = ")]};,"
 
 CANONICALISH = ["sp", "nl", "nl_ind", "blank"]
 LINE_COMMENTS = ["eol_c", "own_c", "blank_own_c", "nosp_c", "two_c", "uni_c", "shebang_c",
-                 "own_c_ind"]
+                 "own_c_ind", "eol_c_blank", "own_c_blank"]
 HOSTILE_EXTRA = ["sp2", "tab", "blank2", "crlf", "inl_blk", "own_blk", "ml_blk", "doc",
-                 "trail_ws", "tight", "inl_blk_tight", "eol_blk", "lead_blk"]
+                 "trail_ws", "tight", "inl_blk_tight", "eol_blk", "lead_blk",
+                 "crlf_blank", "eol_c_crlf", "eol_c_crlf_blank", "blk_edge"]
 
 ALL_CLASSES = ["min"] + CANONICALISH + LINE_COMMENTS + HOSTILE_EXTRA
 
@@ -32,7 +33,8 @@ MODES = {
 }
 
 COMMENT_CLASSES = set(LINE_COMMENTS) | {"inl_blk", "own_blk", "ml_blk", "doc", "inl_blk_tight",
-                                        "eol_blk", "lead_blk"}
+                                        "eol_blk", "lead_blk", "eol_c_crlf", "eol_c_crlf_blank",
+                                        "blk_edge"}
 
 _SERIAL_RE = re.compile(r"c(\d+)x")
 
@@ -81,11 +83,24 @@ def gap_text(cls: str, rng: random.Random, serial: Serial, gi: int, prev: str, n
         return "\n" * rng.choice([3, 4]) + ind
     if cls == "crlf":
         return "\r\n" + ind
+    if cls == "crlf_blank":
+        return "\r\n\r\n" + ind
     if cls == "trail_ws":
         return rng.choice([" \n", "  \n", "\t\n", " \n \n"]) + ind
     c = serial.new(gi)
     if cls == "eol_c":
         return f" # {c}\n" + ind
+    if cls == "eol_c_blank":
+        return f" # {c}\n\n" + ind
+    if cls == "eol_c_crlf":
+        return f" # {c}\r\n" + ind
+    if cls == "eol_c_crlf_blank":
+        return f" # {c}\r\n\r\n" + ind
+    if cls == "own_c_blank":
+        return f"\n{ind}# {c}\n\n" + ind
+    if cls == "blk_edge":
+        # wording that ends in the characters of the closer
+        return rng.choice([f" /* {c} **/ ", f" /* {c} pkgs/*/ ", f" /*{c}*****/ ", f"\n{ind}/* {c} //*/\n{ind}"])
     if cls == "own_c":
         return f"\n# {c}\n" + ind
     if cls == "own_c_ind":
